@@ -21,6 +21,27 @@ CHECKS = {
              'is compared with a two-list reference (submission order, reply order).',
         note='Trusted: the reference encoder refs/ctlcodec.py (control-spec 2.3), the Wire transport emulating '
              'Twisted\'s error path, the bound (sequence length, shape alphabet).'),
+    'C02': dict(
+        engine=E1, design='DESIGN.md section 4 / C02',
+        technique='stateless exhaustive enumeration (event forms x queue states x placements x segmentations; listener '
+                  'behaviour configurations; add/remove sequences) on the real TorControlProtocol with a differential '
+                  '(events deleted) and a reference registration model',
+        text='Bounded exhaustive model checking: 1..2 events in 7 wire forms x 3 name classes, arriving idle / with a plain '
+             'or per-line-callback command in flight / with commands queued behind, before or after the reply, delivered '
+             'per message, glued to the neighbouring reply, cut at every offset, and byte-wise; all <=3-listener '
+             'configurations over 6 behaviours (raise, unsubscribe self/next/previous, subscribe another); all add/remove '
+             'sequences to depth 4/5 for SETEVENTS bookkeeping.',
+        note='Trusted: refs/ctlcodec.py event encoder; events are only placed between replies (control-spec 4.1); payload '
+             'convention tolerant to a leading separator newline and trailing OK terminator.'),
+    'C03': dict(
+        engine=E1, design='DESIGN.md section 4 / C03',
+        technique='crash-point enumeration: connectionLost injected at every byte offset of every session script on the '
+                  'real TorControlProtocol, followed by every short post-loss operation sequence',
+        text='Bounded exhaustive model checking over crash points: 66 (quick) session scripts incl. queued commands, idle '
+             'and the live authentication/bootstrap exchange x every byte offset x clean/unclean reason x 0..2 prior '
+             'when_disconnected() x every sequence (<=3 quick, <=4 thorough) over {plain command, callback command, '
+             'when_disconnected()} after the loss.',
+        note='Trusted: Wire transport; prefix before the loss delivered reply-wise (C01 shows segmentation-independence).'),
 }
 
 PENDING = {}
